@@ -112,6 +112,11 @@ func (w *WindowCalculator) windowOffset(agentID identity.AgentID) time.Duration 
 func (w *WindowCalculator) cycleStart(t time.Time) time.Time {
 	elapsed := t.Sub(w.cfg.Epoch)
 	cycleNum := elapsed / w.cfg.CycleLength
+	// Go division truncates toward zero; round toward negative infinity so
+	// that instants before the epoch land in the cycle that contains them.
+	if elapsed%w.cfg.CycleLength < 0 {
+		cycleNum--
+	}
 	return w.cfg.Epoch.Add(cycleNum * w.cfg.CycleLength)
 }
 
